@@ -25,7 +25,7 @@ VERIF = overlay.VERIF
 REPO = overlay.REPO
 CACHE = overlay.CACHE
 SPEC = os.path.join(VERIF, "spec")
-EVID = os.path.join(VERIF, "evidence") if not overlay.ALT else os.path.join(CACHE, "evidence" + overlay.ALT)
+EVID = os.environ.get("VERIF_EVIDENCE") or (os.path.join(VERIF, "evidence") if not overlay.ALT else os.path.join(CACHE, "evidence" + overlay.ALT))
 TLA_CP = "/opt/veriftools/tla/tla2tools.jar:/opt/veriftools/tla/CommunityModules-deps.jar"
 
 SEED = int(os.environ.get("VERIF_SEED", "1") or "1")
